@@ -76,6 +76,7 @@ func NewHTTPServer(addr string, rpcServer *rpc.Server) *http.Server {
 			conn.Close()
 			return
 		}
+		verifConn(addr, conn)
 		codec := NewMsgpackCodec(conn)
 		rpcServer.ServeCodec(codec)
 	}
